@@ -335,6 +335,182 @@ def canon_row_impl(row):
     return sorted((tuple(k), v) for k, v in row)
 
 
+# ---- large fact sets (the join splits its probe side into chunks of max(len / rayon threads, 1000) triples) ----------
+JOIN_MIN_CHUNK = 1000      # shared/src/join_algorithm.rs: chunk_size = (len / current_num_threads().max(1)).max(1000)
+RAYON_THREADS = [1, 2, 4, 16]
+
+
+def large_program(kind, n):
+    """Flat programs in which one premise matches n facts (n straddles multiples of the chunk size)."""
+    V = lambda k: ["v", k]
+    C = lambda k: ["c", k]
+    ents = ["e%d" % i for i in range(n)]
+    if kind == "type-chain":      # n facts (e_i type A); A -> B -> C: the second round joins a delta of n facts
+        dic = ents + ["type", "A", "B", "Cc"]
+        T, A, B, Cc = n, n + 1, n + 2, n + 3
+        facts = [[i, T, A] for i in range(n)]
+        rules = [{"prem": [[V(0), C(T), C(A)]], "neg": [], "filt": [], "concl": [[V(0), C(T), C(B)]]},
+                 {"prem": [[V(0), C(T), C(B)]], "neg": [], "filt": [], "concl": [[V(0), C(T), C(Cc)], [C(Cc), C(T), V(0)]]}]
+    elif kind == "two-premise":   # (X p Y)(Y q Z) -> (X r Z): n p-facts, n q-facts
+        dic = ents + ["p", "q", "r", "g0", "g1", "g2"]
+        Pp, Q, R, G = n, n + 1, n + 2, n + 3
+        facts = [[i, Pp, (i * 7 + 1) % n] for i in range(n)] + [[i, Q, G + i % 3] for i in range(n)]
+        rules = [{"prem": [[V(0), C(Pp), V(1)], [V(1), C(Q), V(2)]], "neg": [], "filt": [], "concl": [[V(0), C(R), V(2)]]}]
+    elif kind == "var-predicate":  # (X P a) -> (a P X): variable predicate, constant object
+        dic = ents + ["p", "q", "a"]
+        Pp, Q, A = n, n + 1, n + 2
+        facts = [[i, Pp if i % 2 else Q, A] for i in range(n)]
+        rules = [{"prem": [[V(0), V(1), C(A)]], "neg": [], "filt": [], "concl": [[C(A), V(1), V(0)]]}]
+    elif kind == "negation":      # (X type A), NOT (X flag on) -> (X type D): the negative pass joins n facts too
+        dic = ents + ["type", "A", "D", "flag", "on"]
+        T, A, D, Fl, On = n, n + 1, n + 2, n + 3, n + 4
+        facts = [[i, T, A] for i in range(n)] + [[i, Fl, On] for i in range(0, n, 5)]
+        rules = [{"prem": [[V(0), C(T), C(A)]], "neg": [[V(0), C(Fl), C(On)]], "filt": [], "concl": [[V(0), C(T), C(D)]]}]
+    else:
+        raise ValueError(kind)
+    return {"kind": "program", "dict": dic, "facts": facts, "rules": rules, "large": kind, "n": n}
+
+
+def c_run_spec(case):
+    return "run_spec [] %d%%nat [%s] [%s]" % (12, "; ".join(c_rule(r) for r in case["rules"]),
+                                               "; ".join(c_fact(f) for f in case["facts"]))
+
+
+def evaluate_large(ctx, binpath, cases, stream, threads=None):
+    """Large cases: every strategy of the implementation under several rayon pool sizes against the executable Spec
+    (least_model / stratified_exec, proved equal to the inductive definitions).  The Gallina models of the strategies are
+    NOT run on these cases (their list-based hash tables are quadratic under vm_compute); recorded in the evidence."""
+    spec = ctx.run_model(SUB, REQ, [c_run_spec(c) for c in cases], preamble=PRE, chunk=1, timeout=1500)
+    st = {"cases": 0, "spec_violations": 0, "sizes": sorted(set(c["n"] for c in cases)), "rayon_threads": RAYON_THREADS,
+          "model_strategies_evaluated": False, "known_reproduced": 0}
+    want = []
+    for c, mo in zip(cases, spec):
+        if isinstance(mo, tuple) and mo and mo[0] == "ERROR":
+            ctx.broken("correspondence", stream, "Spec evaluation failed on a large case: %s" % (mo[1],), {"large": c["large"], "n": c["n"]})
+            want.append(None)
+            continue
+        lm, strat, (kpar, kneg, safe, kfeed) = mo
+        if (kpar, kneg, safe, kfeed) != (known_par(c), known_neg(c), all(safe_rule(r) for r in c["rules"]), known_neg_feed(c)):
+            ctx.broken("correspondence", stream, "class predicates of checks/c05.py and Classes.v disagree", {"large": c["large"], "n": c["n"]})
+            want.append(None)
+            continue
+        if kneg:
+            if strat is None or not strat[1][2]:
+                ctx.broken("correspondence", stream, "stratified Spec gave no answer on a large case", {"large": c["large"], "n": c["n"]})
+                want.append(None)
+                continue
+            want.append(fset(strat[1][1]))
+        else:
+            if lm is None:
+                ctx.broken("correspondence", stream, "Spec ran out of fuel on a large case", {"large": c["large"], "n": c["n"]})
+                want.append(None)
+                continue
+            want.append(fset(lm[1]))
+    for th in (threads or RAYON_THREADS):
+        impl = ctx.run_impl(binpath, [{k: v for k, v in c.items() if k not in ("large", "n")} for c in cases], shards=1,
+                            env={"RAYON_NUM_THREADS": str(th)})
+        for c, im, w in zip(cases, impl, want):
+            if w is None:
+                continue
+            ctx.count()
+            st["cases"] += 1
+            F = fset(c["facts"])
+            derived = [f for f in w if f not in F]
+            ctx.nontrivial(("large", c["large"], c["n"], th))
+            small = {"large": c["large"], "n": c["n"], "rayon_threads": th}
+            if im is None or im.get("driver_died"):
+                ctx.violation(small, {"what": "driver died on a large program", "impl": im})
+                st["spec_violations"] += 1
+                continue
+            for s in STRATS:
+                i = impl_triple(im.get(s))
+                if i is None:
+                    ctx.violation(dict(small, strategy=s), {"what": "implementation panicked or rejected a safe program", "impl": im.get(s)})
+                    st["spec_violations"] += 1
+                    continue
+                known = ((s == "par" and known_par(c) and is_known(ctx, "C05-parallel-shapes"))
+                         or (known_neg(c) and s != "prov" and is_known(ctx, "C05-negation-ignored"))
+                         or (known_neg(c) and s == "prov" and known_neg_feed(c) and is_known(ctx, "C05-negation-single-pass")))
+                ok = (i["all"] == w and i["new"] == derived and i["again"] == [] and not i["dups"] and i["all2"] == i["all"])
+                if ok:
+                    continue
+                if known:
+                    st["known_reproduced"] += 1
+                    continue
+                missing = [f for f in w if f not in set(i["all"])]
+                extra = [f for f in i["all"] if f not in set(w)]
+                ctx.violation(dict(small, strategy=s),
+                              {"what": "strategy '%s' does not compute the %s on a large fact set (RAYON_NUM_THREADS=%d)" % (
+                                  s, "stratified model" if known_neg(c) else "least model", th),
+                               "premise_matches": c["n"], "join_chunk_size": max(c["n"] // th, JOIN_MIN_CHUNK),
+                               "missing_count": len(missing), "missing": missing[:8], "unsound": extra[:8],
+                               "second_run": i["again"][:8], "specified_model_size": len(w), "stored": len(i["all"])})
+                st["spec_violations"] += 1
+    ctx.stream(stream, **st)
+
+
+def large_cases(thorough):
+    if thorough:
+        spec = [("type-chain", 1001), ("type-chain", 1500), ("type-chain", 2000), ("type-chain", 2001), ("type-chain", 3000),
+                ("two-premise", 1001), ("two-premise", 1999), ("two-premise", 2500), ("var-predicate", 1500), ("var-predicate", 2999),
+                ("negation", 1001), ("negation", 2001)]
+    else:
+        spec = [("type-chain", 1001), ("two-premise", 1001), ("var-predicate", 1500), ("negation", 1250)]
+    return [large_program(k, n) for k, n in spec]
+
+
+# ---- cascades: later premises of a 3/4-premise rule are fed by facts that other rules derive in the same round ----------
+def cascade_program(k, base_pos, swaps, extra_round, ne=3, order=None):
+    """friend-of-a-friend style cascade.  Base facts (x type T) and (x likes y).  One one-premise rule per derived predicate
+    d_j: (X likes Y) -> (X d_j Y) or (Y d_j X) (swaps[j]); the k-premise rule has the base premise (X type T) at position
+    base_pos and the premises over d_1 .. d_{k-1} elsewhere; with extra_round the base premise is over a predicate derived
+    one round EARLIER than the d_j (so it is old, not base, when the d_j arrive)."""
+    V = lambda i: ["v", i]
+    C = lambda i: ["c", i]
+    ents = ["a", "b", "c", "d"][:ne]
+    preds = ["type", "T", "likes", "pre", "friend", "seed"] + ["d%d" % j for j in range(1, k)]
+    dic = ents + preds
+    idx = {s: i for i, s in enumerate(dic)}
+    facts = [[i, idx["type"], idx["T"]] for i in range(ne)]
+    facts += [[i, idx["likes"], (i + 1) % ne] for i in range(ne)] + [[0, idx["likes"], 0]]
+    rules = []
+    src = "likes"
+    if extra_round:        # likes facts appear one round later than the type facts: (x seed y) -> (x likes y)
+        facts = [f if f[1] != idx["likes"] else [f[0], idx["seed"], f[2]] for f in facts]
+        rules.append({"prem": [[V(0), C(idx["seed"]), V(1)]], "neg": [], "filt": [], "concl": [[V(0), C(idx["likes"]), V(1)]]})
+    body = []
+    for j in range(1, k):
+        d = idx["d%d" % j]
+        rules.append({"prem": [[V(0), C(idx[src]), V(1)]], "neg": [], "filt": [],
+                      "concl": [[V(1), C(d), V(0)] if swaps[j - 1] else [V(0), C(d), V(1)]]})
+        body.append([V(1), C(d), V(0)] if swaps[j - 1] else [V(0), C(d), V(1)])
+    body.insert(base_pos, [V(0), C(idx["type"]), C(idx["T"])])
+    rules.append({"prem": body, "neg": [], "filt": [], "concl": [[V(0), C(idx["friend"]), V(1)]]})
+    if order is not None:
+        rules = [rules[i] for i in order]
+    return {"kind": "program", "dict": dic, "facts": facts, "rules": rules}
+
+
+def cascade_cases(rng, thorough):
+    cases = []
+    for k in (3, 4):
+        for base_pos in range(k):
+            for sw in itertools.product([False, True], repeat=k - 1):
+                for extra in (False, True):
+                    if not thorough and (k == 4 and (sum(sw) % 2 == 1)):
+                        continue
+                    cases.append(cascade_program(k, base_pos, sw, extra))
+    for _ in range(200 if thorough else 24):    # random variants: rule order, entity count
+        k = rng.choice([3, 4])
+        n_rules = (k - 1) + 1
+        extra = rng.random() < 0.5
+        order = list(range(n_rules + (1 if extra else 0)))
+        rng.shuffle(order)
+        cases.append(cascade_program(k, rng.randrange(k), [rng.random() < 0.5 for _ in range(k - 1)], extra,
+                                     ne=rng.choice([2, 3, 4]), order=order))
+    return cases
+
+
 # ---- evaluation ------------------------------------------------------------------------------------
 def is_known(ctx, fid):
     return any(k["id"] == fid for k in ctx.known_findings())
@@ -543,6 +719,15 @@ def run(ctx):
     if corpus:
         evaluate_programs(ctx, binpath, [{k: v for k, v in c.items() if not k.startswith("_")} for c in corpus], "corpus")
     replay_known(ctx, binpath)
+    # cascades (3/4-premise rules fed by facts other rules derive in the same round) and large fact sets
+    casc = cascade_cases(ctx.rng, ctx.thorough)
+    ctx.sample({"cascade_rules": casc[0]["rules"], "facts": casc[0]["facts"]})
+    evaluate_programs(ctx, binpath, casc, "cascade")
+    large = large_cases(ctx.thorough)
+    for c in load_corpus():      # corpus entries {"kind": "large", "large": <family>, "n": <size>}
+        if c.get("kind") == "large" and not any(l["large"] == c["large"] and l["n"] == c["n"] for l in large):
+            large.append(large_program(c["large"], c["n"]))
+    evaluate_large(ctx, binpath, large, "large_fact_sets")
     # function-level join stream
     nj = 3000 if ctx.thorough else 400
     joins = [random_join_case(ctx.rng, i % 3 != 0) for i in range(nj)]
@@ -604,7 +789,10 @@ def replay(ctx):
     binpath = ctx.harness("c05")
     c = ctx.replay["case"]
     case = c.get("case", c)
-    if case.get("kind") == "join":
+    if "large" in case:
+        evaluate_large(ctx, binpath, [large_program(case["large"], case["n"])], "replay",
+                       threads=[case["rayon_threads"]] if "rayon_threads" in case else None)
+    elif case.get("kind") == "join":
         evaluate_joins(ctx, binpath, [case], "replay")
     else:
         cases = [case] + ([c["reordered"]] if "reordered" in c else [])
